@@ -116,15 +116,19 @@ func writeEvidence(f *commonFlags, tot *Stats, wall float64, reported, known []s
 			"entries inserted into a map while it is being ranged over are not visited (one of the behaviours the spec allows)",
 			"the radix-tree overlap generator keeps only IDs for which the single-ID self check returns without error",
 			"for the key conversions the compared set is the union of (quadkey, vertical) pairs plus the parameter tuples; which group reports a pair is not compared",
-			"writes into the spare capacity of a caller's slice count as modifying the caller's input"},
+			"writes into the spare capacity of a caller's slice count as modifying the caller's input",
+			"a returned slice is overwritten by the harness after copying (a caller owns its result), unless it aliases an input argument",
+			"every library call runs as the root task of a scheduler without preemptions; goroutines the library starts run when the caller blocks, waits or finishes"},
 		"C14": {"every permutation of a map's keys is a legal schedule",
 			"clause 4 uses the component-wise maximum of the layer counts over the voxels of the line",
 			"clause 6 (independent distance) is evaluated only for hZoom >= 10 and |lat| <= 80 and flags only distance > 1.01*radius + 0.05 m",
 			"transform.FitClearanceAroundExtendedSpatialID is used as the source of the layer counts, as the property statement does"},
 		"C19": {"tasks interleave at yield points only (statement-level atomicity between yields); lane B (real goroutines, -race, uninstrumented build) covers intra-statement races and is auxiliary",
 			"package-level state is restored to its start-of-process value before every case, so that first-use (lazy initialisation) windows are re-opened in every case",
-			"a change of package state is a violation only if the writing task performed no synchronisation operation since its call began",
-			"channels, select, sync.Cond and timers are not simulated; a stalled run ends with exit 2, not with a verdict"},
+			"a change of package state is a violation only if the writing task performed no synchronisation operation since its call began, or if two tasks changed the same component in calls that touched no synchronisation object in common",
+			"the access log holds instrumented statements only (package variables by first-level component, locals captured by go-closures by address); writes through aliases are seen by the state monitor, not by the race monitor",
+			"set-valued results are compared as sets when they differ in order only; a returned slice is overwritten by the harness after copying (a caller owns its result)",
+			"channels, select, sync.Cond and timers are not simulated: for a tree that uses them lane A is skipped and the verdict is lane B's; the same if goroutines appear that the simulator did not start; a run that stalls anyway ends with exit 2, not with a verdict"},
 	}
 	ev := map[string]any{
 		"property_id": f.prop,
